@@ -356,6 +356,13 @@ pub fn run(ctx: &mut Ctx) -> Result<(), Violation> {
         let text = rprint::plain(&ast);
         self_check(&ast, &text)?;
         st.eval();
+        // bound names come on top of the 9..14 free ones; beyond 16 the table oracle stops
+        let idents = rlex::lex(&text).map(|t| rlex::identifiers(&t).len()).unwrap_or(0);
+        if idents > 16 {
+            st.discarded += 1;
+            st.class("wide-formula-skipped(more than 16 names)");
+            return Ok(());
+        }
         st.class("wide-formula(9..14 names)");
         let info = check_text(&text, false)?;
         classify(&ast, &text, &info, st);
